@@ -30,7 +30,7 @@ class C12(TreeCheck):
                 if nroot > (3 if tier == "quick" else 24):
                     continue
                 to = {"tree_wait_s": 50, "hard_s": 200}
-            out.append({"program": prog, "config": {}, "meta": meta, "timeouts": to})
+            out.append({"program": prog, "config": {"main_level_tracked": bool(meta.get("main_level_tracked"))}, "meta": meta, "timeouts": to})
         return out
 
     def derive(self, base, F, rng, tier):
